@@ -133,13 +133,13 @@ CHECKS = {
              "that every assignment of every tuner choice x every layer-index set yields a trial within limits, shared "
              "inside the group, untouched outside the selection, softmax kept. The real "
              "AutoQKHyperModel.quantize_model is driven with a stub tuner through all 324 assignments x 4 index sets "
-             "(thorough; seeded sample of 420 in quick); each run logs every Choice/Fixed call with its offered values "
+             "(thorough; seeded sample of 280 in quick), and two generic instances (conv / separable / LSTM / SimpleRNN / GRU / dense mixes, short limit lists completed from 'default', explicit quantizer lists, regex groups, layer names containing role words) with seeded random tuner answers judged by Trace_AutoQG against the documented limit format; each run logs every Choice/Fixed call with its offered values "
              "and the projected trial model, and TLC judges offered = limit-filtered table, chosen within limit, trial "
              "layer = chosen entry, group asked once, unselected layers stock, architecture kept. Forgiving factor: "
              "sign / zero / strict order of delta() on size series as exact dyadics, and compute_model_size = sum of "
              "elements x bits recomputed from the trial model's tensors and quantizers.",
         design="7 C20", note="the keras-tuner search loop is replaced by a stub tuner (keras_tuner's oracle cannot run "
-                            "offline trials here); filter tuning is not exercised; recurrent/separable layers are not in the reference instance"),
+                            "offline trials here); filter tuning is not exercised"),
     "C18": dict(
         spec="QTypes.tla + MC_QTypes + Trace_QModel",
         text="Real one- and two-layer models (dense, conv1d, conv2d, depthwise; fixed/po2/ternary/binary kernels; "
